@@ -3,6 +3,8 @@
 From Coq Require Import Reals Lra List ZArith Bool.
 From Inferno Require Import Base.Num Base.NumR Gen.Interpolation Gen.Extrapolation C20.InterpProofs.
 Open Scope R_scope.
-Theorem roundtrip_previous : forall s t p n dt : R, roundtrip (interp_previous RN) (extrap_previous RN) s t p n dt.
+Theorem roundtrip_previous : forall s t p n dt : T RN,
+  interp_previous RN (fst (extrap_previous RN s t p n dt))
+    (snd (extrap_previous RN s t p n dt)) t dt = s.
 Proof. exact (@Inferno.C20.InterpProofs.roundtrip_previous). Qed.
 Print Assumptions roundtrip_previous.
